@@ -34,7 +34,7 @@ Definition kind_of (k : skind) : kind :=
   | SMinus => KMinus | SDivide => KDivide | SPower => KPower
   | SRem => KFn2 fn_mod
   | SRoot => KRoot | SLog => KLog10 | SDiff => KDiff
-  | SUnary f => if f =? fn_log then KLogC else KFn1 f
+  | SUnary f => KFn1 f
   | SRelN r => KChain r
   | SRel2 r => KRel r
   end.
@@ -87,6 +87,40 @@ Proof.
   - unfold all_tags in Hout. rewrite !in_app_iff in Hout.
     unfold tag_kind, spec_kind, role.
     rewrite (alookup_none tag simple_table), (alookup_none tag handler_methods), (alookup_none tag role_table); tauto.
+Qed.
+
+(* MATHML_CONTAINERS: exactly the structural elements and cn *)
+Definition may_have_children (r : srole) : bool :=
+  match r with
+  | RApply | RPiecewise | RPiece | ROtherwise | RDegree | RLogbase | RBvar | RMath | RCn => true
+  | _ => false
+  end.
+
+Definition spec_container (tag : name) : bool :=
+  match role tag with Some r => may_have_children r | None => false end.
+
+Definition container_checker : bool :=
+  forallb (fun tag => Bool.eqb (name_in tag container_tags) (spec_container tag)) (all_tags ++ container_tags).
+
+Lemma container_check : container_checker = true.
+Proof. vm_compute. reflexivity. Qed.
+
+Lemma name_in_In n l : name_in n l = true <-> In n l.
+Proof.
+  unfold name_in. rewrite existsb_exists. split.
+  - intros [x [Hx He]]. apply name_eqb_eq in He. congruence.
+  - intro H. exists n. split; [exact H|]. apply name_eqb_eq. reflexivity.
+Qed.
+
+Lemma containers_match_spec : forall tag, name_in tag container_tags = spec_container tag.
+Proof.
+  intro tag.
+  destruct (in_dec (list_eq_dec Z.eq_dec) tag (all_tags ++ container_tags)) as [Hin|Hout].
+  - pose proof container_check as H. unfold container_checker in H. rewrite forallb_forall in H.
+    apply Bool.eqb_prop, H, Hin.
+  - rewrite in_app_iff in Hout. unfold all_tags in Hout. rewrite !in_app_iff in Hout.
+    unfold spec_container, role. rewrite (alookup_none tag role_table) by tauto.
+    destruct (name_in tag container_tags) eqn:E; [|reflexivity]. apply name_in_In in E. tauto.
 Qed.
 
 Lemma role_kind tag r : role tag = Some r -> tag_kind tag = expected r.
@@ -267,13 +301,8 @@ Section Sound.
     - discriminate.
     - (* unary functions, generically *)
       cbn [sem_op] in Hs. destruct vs as [|[rx|] [|]]; try discriminate.
-      destruct (f =? fn_log)%Z eqn:Ef.
-      + apply Z.eqb_eq in Ef. subst f. cbn [call_expr] in Hc.
-        destruct es as [|x [|y [|]]]; try discriminate; cbn [ok_e] in Hc; inv Hc.
-        * rewrite eval_fn, He. exact Hs.
-        * rewrite !evs_cons in He. destruct (ev x), (ev y); discriminate.
-      + cbn [call_expr] in Hc. destruct es as [|x [|]]; try discriminate. cbn [ok_e] in Hc. inv Hc.
-        rewrite eval_fn, He. exact Hs.
+      cbn [call_expr] in Hc. destruct es as [|x [|]]; try discriminate. cbn [ok_e] in Hc. inv Hc.
+      rewrite eval_fn, He. exact Hs.
     - (* n-ary relations: a conjunction of the adjacent pairs *)
       cbn [sem_op] in Hs. destruct (reals vs) as [[|ra [|rb rrest]]|] eqn:Er; try discriminate.
       pose proof (evs_reals _ _ _ He Er) as He'. clear He Er.
@@ -334,10 +363,8 @@ Section Sound.
     unfold cn_handler, sem_cn. intros Ht Hm.
     destruct (ty =? 0)%Z.
     - destruct text as [|c0 t0]; [discriminate|]. destruct ch; [|discriminate].
-      unfold mathml_real in Hm. destruct (forallb real_char (strip (c0 :: t0))); [|discriminate].
-      unfold py_float in Ht.
-      destruct (signed_number (strip (c0 :: t0))) as [[[v0 k] [|]]|]; try discriminate.
-      inv Hm. cbn [fval_expr] in Ht. inv Ht. reflexivity.
+      unfold mathml_number in Hm. destruct (forallb number_char (strip (c0 :: t0))); [|discriminate].
+      destruct (py_real (strip (c0 :: t0))) as [q|]; [|discriminate]. inv Hm. inv Ht. reflexivity.
     - destruct (ty =? 1)%Z; [|discriminate].
       destruct text as [|c0 t0]; [discriminate|].
       destruct ch as [|[stag sty stext stail sch] [|]]; try discriminate.
@@ -358,7 +385,10 @@ Section Sound.
 
   Lemma tr_eq tag ty text tail ch :
     tr (MElem tag ty text tail ch) =
-    match tag_kind tag with None => TErr EValue | Some h => handle h ty text ch (trs ch) end.
+    match tag_kind tag with
+    | None => TErr EValue
+    | Some h => if leaf_violation tag ch then TErr EValue else handle h ty text ch (trs ch)
+    end.
   Proof. reflexivity. Qed.
 
   Lemma trs_cons x r : trs (x :: r) = match tr x with
@@ -378,7 +408,8 @@ Section Sound.
 
   (* an element with a role: what its handler does *)
   Lemma tr_role tag ty text tail ch r h :
-    role tag = Some r -> expected r = Some h -> tr (MElem tag ty text tail ch) = handle h ty text ch (trs ch).
+    role tag = Some r -> expected r = Some h ->
+    tr (MElem tag ty text tail ch) = if leaf_violation tag ch then TErr EValue else handle h ty text ch (trs ch).
   Proof. intros Hr He. rewrite tr_eq, (role_kind _ _ Hr), He. reflexivity. Qed.
 
   Lemma args_sound : forall args vargs es vs,
@@ -429,7 +460,7 @@ Section Sound.
        else if is_role ptag ROtherwise then match pch, r with [x], [] => ms x | _, _ => None end else None) in Hm.
     destruct (is_role ptag RPiece) eqn:Rp.
     - apply is_role_eq in Rp. destruct pch as [|x [|c [|]]]; try discriminate.
-      rewrite (tr_role _ _ _ _ _ _ HPiece Rp eq_refl) in E1. cbn [handle] in E1.
+      rewrite (tr_role _ _ _ _ _ _ HPiece Rp eq_refl) in E1. destruct (leaf_violation _ _); [discriminate|]. cbn [handle] in E1.
       rewrite !trs_cons in E1. destruct (tr x) as [vx|] eqn:Ex; [|discriminate].
       destruct (tr c) as [vc|] eqn:Ec; [|discriminate]. cbn in E1. inv E1.
       inversion Hkids as [|? ? Hx Hk2]; subst. inversion Hk2 as [|? ? Hc _]; subst.
@@ -448,7 +479,7 @@ Section Sound.
         cbn in Evc. discriminate.
     - destruct (is_role ptag ROtherwise) eqn:Ro; [|discriminate]. apply is_role_eq in Ro.
       destruct pch as [|x [|]]; try discriminate. destruct r; [|discriminate].
-      rewrite (tr_role _ _ _ _ _ _ HOtherwise Ro eq_refl) in E1. cbn [handle] in E1.
+      rewrite (tr_role _ _ _ _ _ _ HOtherwise Ro eq_refl) in E1. destruct (leaf_violation _ _); [discriminate|]. cbn [handle] in E1.
       rewrite !trs_cons in E1. destruct (tr x) as [vx|] eqn:Ex; [|discriminate]. cbn in E1. inv E1.
       inversion Hkids as [|? ? Hx _]; subst.
       cbn [pieces] in Hp. destruct vx as [e1| | | | |]; try discriminate. cbn in Hp. inv Hp.
@@ -458,8 +489,7 @@ Section Sound.
   Lemma kind_not_diff k : k <> SDiff -> kind_of k <> KDiff.
   Proof.
     destruct k; cbn; try congruence; try discriminate.
-    - destruct (w =? 0)%Z; discriminate.
-    - destruct (f =? fn_log)%Z; discriminate.
+    destruct (w =? 0)%Z; discriminate.
   Qed.
 
   Lemma step tag ty text tail ch : Forall Deep ch -> Snd (MElem tag ty text tail ch).
@@ -468,16 +498,25 @@ Section Sound.
     destruct (role tag) as [r|] eqn:Er; [|discriminate].
     destruct r; try discriminate.
     - (* ci *)
-      rewrite (tr_role _ _ _ _ _ _ HCi Er eq_refl) in Ht. cbn [handle] in Ht.
+      rewrite (tr_role _ _ _ _ _ _ HCi Er eq_refl) in Ht. destruct (leaf_violation _ _); [discriminate|]. cbn [handle] in Ht.
       unfold ci_handler in Ht. unfold sem_ci in Hm. destruct text; [discriminate|]. inv Ht. exact Hm.
     - (* cn *)
-      rewrite (tr_role _ _ _ _ _ _ HCn Er eq_refl) in Ht. cbn [handle] in Ht. exact (cn_sound _ _ _ _ _ Ht Hm).
+      rewrite (tr_role _ _ _ _ _ _ HCn Er eq_refl) in Ht. destruct (leaf_violation _ _); [discriminate|]. cbn [handle] in Ht. exact (cn_sound _ _ _ _ _ Ht Hm).
     - (* apply *)
-      rewrite (tr_role _ _ _ _ _ _ HApply Er eq_refl) in Ht. cbn [handle] in Ht.
-      destruct ch as [|[otag oty otext otail och] args]; [discriminate|].
-      destruct (role otag) as [[| | | | | | | | | |k| |]|] eqn:Eo; try discriminate.
+      rewrite (tr_role _ _ _ _ _ _ HApply Er eq_refl) in Ht. destruct (leaf_violation _ _); [discriminate|]. cbn [handle] in Ht.
+      destruct ch as [|[otag oty otext otail och] args]; [discriminate|]. cbn [mtag] in Hm.
+      assert (Hone : (forall k, role otag <> Some (ROp k)) -> args = [] ->
+                     ms (MElem otag oty otext otail och) = Some v -> ev e = Some v).
+      { intros _ -> Hm1. inversion HF as [|? ? [H1 _] _]; subst.
+        rewrite trs_cons in Ht. destruct (tr (MElem otag oty otext otail och)) as [w|] eqn:E1; [|discriminate].
+        cbn [trs trs_of container apply_handler] in Ht. destruct w; cbn [is_basic] in Ht; try discriminate. inv Ht.
+        exact (H1 _ _ E1 Hm1). }
+      destruct (role otag) as [[| | | | | | | | | |k| |]|] eqn:Eo;
+        try (destruct args; [|discriminate]; apply Hone; [intros k0; discriminate|reflexivity|exact Hm]).
+      clear Hone.
       inversion HF as [|? ? _ HFa]; subst.
-      rewrite trs_cons, (tr_role _ _ _ _ _ _ (HOp (kind_of k)) Eo eq_refl) in Ht. cbn [handle] in Ht.
+      rewrite trs_cons, (tr_role _ _ _ _ _ _ (HOp (kind_of k)) Eo eq_refl) in Ht.
+      destruct (leaf_violation _ _); [discriminate|]. cbn [handle] in Ht.
       destruct (trs args) as [vargs|] eqn:Ea; [|discriminate]. cbn [container apply_handler] in Ht.
       destruct vargs as [|v1 vargs']; [discriminate|].
       assert (Hgen : k <> SRoot -> k <> SLog -> k <> SDiff ->
@@ -500,7 +539,7 @@ Section Sound.
           destruct (is_role qtag RDegree) eqn:Rq; [|discriminate]. apply is_role_eq in Rq.
           inversion HFa as [|? ? [_ Hq] HFa2]; subst. inversion HFa2 as [|? ? [H2 _] _]; subst.
           cbn [mchildren] in Hq. inversion Hq as [|? ? Hd _]; subst.
-          rewrite trs_cons, (tr_role _ _ _ _ _ _ HDegree Rq eq_refl) in Ea. cbn [handle] in Ea.
+          rewrite trs_cons, (tr_role _ _ _ _ _ _ HDegree Rq eq_refl) in Ea. destruct (leaf_violation _ _); [discriminate|]. cbn [handle] in Ea.
           rewrite trs_cons in Ea. destruct (tr d) as [wd|] eqn:Ed; [|discriminate]. cbn [trs trs_of container] in Ea.
           try rewrite trs_cons in Ea. destruct (tr a2) as [w2|] eqn:E2; [|discriminate]. cbn in Ea. inv Ea.
           destruct v1 as [ed| | | | |]; try discriminate. destruct w2 as [ex| | | | |]; try discriminate.
@@ -520,7 +559,7 @@ Section Sound.
           destruct (is_role qtag RLogbase) eqn:Rq; [|discriminate]. apply is_role_eq in Rq.
           inversion HFa as [|? ? [_ Hq] HFa2]; subst. inversion HFa2 as [|? ? [H2 _] _]; subst.
           cbn [mchildren] in Hq. inversion Hq as [|? ? Hd _]; subst.
-          rewrite trs_cons, (tr_role _ _ _ _ _ _ HLogbase Rq eq_refl) in Ea. cbn [handle] in Ea.
+          rewrite trs_cons, (tr_role _ _ _ _ _ _ HLogbase Rq eq_refl) in Ea. destruct (leaf_violation _ _); [discriminate|]. cbn [handle] in Ea.
           rewrite trs_cons in Ea. destruct (tr d) as [wd|] eqn:Ed; [|discriminate]. cbn [trs trs_of container] in Ea.
           try rewrite trs_cons in Ea. destruct (tr a2) as [w2|] eqn:E2; [|discriminate]. cbn in Ea. inv Ea.
           destruct v1 as [eb| | | | |]; try discriminate. destruct w2 as [ex| | | | |]; try discriminate.
@@ -536,19 +575,21 @@ Section Sound.
         destruct (is_role ytag RCi) eqn:Ry; [|discriminate]. apply is_role_eq in Ry.
         cbn [andb] in Hm.
         cbn [trs trs_of] in Ea.
-        rewrite (tr_role _ _ _ _ _ _ HBvar Rb eq_refl), (tr_role _ _ _ _ _ _ HCi Ry eq_refl) in Ea.
+        rewrite (tr_role _ _ _ _ _ _ HBvar Rb eq_refl) in Ea. destruct (leaf_violation btag _); [discriminate|].
         cbn [handle trs trs_of] in Ea. rewrite (tr_role _ _ _ _ _ _ HCi Rt eq_refl) in Ea.
-        cbn [handle ci_handler container] in Ea. inv Ea.
+        destruct (leaf_violation ttag _); [discriminate|]. cbn [handle ci_handler container] in Ea.
+        rewrite (tr_role _ _ _ _ _ _ HCi Ry eq_refl) in Ea. destruct (leaf_violation ytag _); [discriminate|].
+        cbn [handle ci_handler] in Ea. inv Ea.
         cbn in Ht. inv Ht. cbn [eval]. exact Hm.
     - (* piecewise *)
-      rewrite (tr_role _ _ _ _ _ _ HPiecewise Er eq_refl) in Ht. cbn [handle] in Ht.
+      rewrite (tr_role _ _ _ _ _ _ HPiecewise Er eq_refl) in Ht. destruct (leaf_violation _ _); [discriminate|]. cbn [handle] in Ht.
       destruct (trs ch) as [vs|] eqn:Ec; [|discriminate]. cbn [container] in Ht.
       destruct vs as [|v0 vs']; [discriminate|]. destruct (pieces (v0 :: vs')) as [ps|] eqn:Ep; [|discriminate].
       cbn [ok_e] in Ht. inv Ht. rewrite eval_pw. exact (pw_sound _ _ _ _ HF Ec Ep Hm).
     - (* pi, e, infinity, notanumber *)
-      rewrite (tr_role _ _ _ _ _ _ (HVal c) Er eq_refl) in Ht. cbn [handle] in Ht. inv Ht. exact Hm.
+      rewrite (tr_role _ _ _ _ _ _ (HVal c) Er eq_refl) in Ht. destruct (leaf_violation _ _); [discriminate|]. cbn [handle] in Ht. inv Ht. exact Hm.
     - (* true, false *)
-      rewrite (tr_role _ _ _ _ _ _ (HValB b) Er eq_refl) in Ht. cbn [handle] in Ht. inv Ht. inv Hm. destruct b; reflexivity.
+      rewrite (tr_role _ _ _ _ _ _ (HValB b) Er eq_refl) in Ht. destruct (leaf_violation _ _); [discriminate|]. cbn [handle] in Ht. inv Ht. inv Hm. destruct b; reflexivity.
   Qed.
 
   Section MInd.
@@ -586,7 +627,7 @@ Section Sound.
     pairwise r a rest = Some b -> ev e = Some (VB b).
   Proof.
     intros Hr Ho Hm Hne Ht Hp. apply (transpile_sound _ _ Ht).
-    rewrite ms_eq. unfold msem_body. rewrite Hr, Ho. cbn [sem_apply].
+    rewrite ms_eq. unfold msem_body. rewrite Hr. cbn [mtag]. rewrite Ho. cbn [sem_apply].
     change (msems_of ms args) with (mss args). rewrite Hm.
     cbn [sem_op]. rewrite reals_map. destruct rest; [congruence|]. rewrite Hp. reflexivity.
   Qed.
@@ -601,12 +642,23 @@ Definition is_container (r : srole) : bool :=
   | _ => false
   end.
 
+Lemma tr_unfold tag ty text tail ch :
+  tr (MElem tag ty text tail ch) =
+  match tag_kind tag with
+  | None => TErr EValue
+  | Some h => if leaf_violation tag ch then TErr EValue else handle h ty text ch (trs ch)
+  end.
+Proof. reflexivity. Qed.
+
+Lemma trs_unfold x r :
+  trs (x :: r) = match tr x with
+                 | TOk v => match trs r with TOk vs => TOk (v :: vs) | TErr e => TErr e end
+                 | TErr e => TErr e end.
+Proof. reflexivity. Qed.
+
 Lemma trs_err c ch : In c ch -> (exists e, tr c = TErr e) -> exists e, trs ch = TErr e.
 Proof.
-  induction ch as [|x r IH]; intros Hin [e He]; [contradiction|].
-  change (trs (x :: r)) with (match tr x with
-                              | TOk v => match trs r with TOk vs => TOk (v :: vs) | TErr e => TErr e end
-                              | TErr e => TErr e end).
+  induction ch as [|x r IH]; intros Hin [e He]; [contradiction|]. rewrite trs_unfold.
   destruct Hin as [->|Hin].
   - rewrite He. eauto.
   - destruct (tr x); [|eauto]. destruct (IH Hin (ex_intro _ e He)) as [e' ->]. eauto.
@@ -616,9 +668,7 @@ Lemma trs_length : forall l vs, trs l = TOk vs -> length vs = length l.
 Proof.
   induction l as [|x r IH]; intros vs H.
   - cbn in H. injection H as <-. reflexivity.
-  - change (trs (x :: r)) with (match tr x with
-                                | TOk v => match trs r with TOk vs => TOk (v :: vs) | TErr e => TErr e end
-                                | TErr e => TErr e end) in H.
+  - rewrite trs_unfold in H.
     destruct (tr x); [|discriminate]. destruct (trs r) eqn:E; [|discriminate]. injection H as <-.
     cbn. f_equal. apply IH. reflexivity.
 Qed.
@@ -631,22 +681,23 @@ Proof.
     cbn. f_equal. apply IH. reflexivity.
 Qed.
 
+Lemma may_children_no_violation tag r ch : role tag = Some r -> may_have_children r = true -> leaf_violation tag ch = false.
+Proof.
+  intros Hr Hc. unfold leaf_violation. rewrite containers_match_spec. unfold spec_container. rewrite Hr, Hc. reflexivity.
+Qed.
+
 Lemma tr_container tag ty text tail ch r h :
   role tag = Some r -> is_container r = true -> expected r = Some h ->
   tr (MElem tag ty text tail ch) = match trs ch with TErr e => TErr e | TOk vs => container h vs end.
 Proof.
-  intros Hr Hc He. change (tr (MElem tag ty text tail ch)) with
-    (match tag_kind tag with None => TErr EValue | Some h => handle h ty text ch (trs ch) end).
-  rewrite (role_kind _ _ Hr), He. destruct r; try discriminate; injection He as <-; reflexivity.
+  intros Hr Hc He. rewrite tr_unfold, (role_kind _ _ Hr), He, (may_children_no_violation _ r) by
+    (try exact Hr; destruct r; try discriminate; reflexivity).
+  destruct r; try discriminate; injection He as <-; reflexivity.
 Qed.
 
 (* an element the specification does not know is refused, wherever a container element meets it *)
 Lemma rejects_unknown tag ty text tail ch : role tag = None -> tr (MElem tag ty text tail ch) = TErr EValue.
-Proof.
-  intro H. change (tr (MElem tag ty text tail ch)) with
-    (match tag_kind tag with None => TErr EValue | Some h => handle h ty text ch (trs ch) end).
-  rewrite (role_none _ H). reflexivity.
-Qed.
+Proof. intro H. rewrite tr_unfold, (role_none _ H). reflexivity. Qed.
 
 Lemma rejects_unknown_child tag ty text tail ch r c :
   role tag = Some r -> is_container r = true -> In c ch -> role (mtag c) = None ->
@@ -681,12 +732,29 @@ Proof.
     destruct vs as [|? [|? [|? ?]]]; try discriminate; cbn; eauto.
 Qed.
 
+(* token, operator and constant elements with child elements are refused (repaired: ignored-children) *)
+Lemma rejects_leaf_children tag ty text tail ch r :
+  role tag = Some r -> may_have_children r = false -> ch <> [] -> tr (MElem tag ty text tail ch) = TErr EValue.
+Proof.
+  intros Hr Hc Hne. rewrite tr_unfold, (role_kind _ _ Hr).
+  assert (Hv : leaf_violation tag ch = true).
+  { unfold leaf_violation. rewrite containers_match_spec. unfold spec_container. rewrite Hr, Hc.
+    destruct ch; [congruence|reflexivity]. }
+  rewrite Hv. destruct (expected r); reflexivity.
+Qed.
+
+Lemma rejects_cn_children tag text tail ch :
+  role tag = Some RCn -> ch <> [] -> tr (MElem tag 0 text tail ch) = TErr EValue.
+Proof.
+  intros Hr Hne. rewrite tr_unfold, (role_kind _ _ Hr), (may_children_no_violation _ RCn) by (try exact Hr; reflexivity).
+  cbn [expected handle]. unfold cn_handler. cbn. destruct ch; [congruence|reflexivity].
+Qed.
+
 Lemma rejects_cn_type tag text tail ch ty :
   role tag = Some RCn -> ty <> 0 -> ty <> 1 -> tr (MElem tag ty text tail ch) = TErr EValue.
 Proof.
-  intros Hr H0 H1. change (tr (MElem tag ty text tail ch)) with
-    (match tag_kind tag with None => TErr EValue | Some h => handle h ty text ch (trs ch) end).
-  rewrite (role_kind _ _ Hr). cbn [expected handle]. unfold cn_handler.
+  intros Hr H0 H1. rewrite tr_unfold, (role_kind _ _ Hr), (may_children_no_violation _ RCn) by (try exact Hr; reflexivity).
+  cbn [expected handle]. unfold cn_handler.
   destruct (ty =? 0) eqn:E0; [lia|]. destruct (ty =? 1) eqn:E1; [lia|]. reflexivity.
 Qed.
 
@@ -700,31 +768,23 @@ Definition arity_ok (k : skind) (n : nat) : bool :=
   | SRelN _ => Nat.leb 2 n
   end.
 
-(* the operand counts the code accepts although MathML does not (F13) *)
+(* the one operand count the code still accepts although MathML does not: a third operand of diff lands in the
+   "evaluate" parameter (known finding qualifier-misuse) *)
 Definition arity_hole (k : skind) (n : nat) : bool :=
-  match k with
-  | SUnary f => (f =? fn_log) && Nat.eqb n 2       (* ln with two operands *)
-  | SDiff => Nat.eqb n 3                           (* the third operand lands in "evaluate" *)
-  | _ => false
-  end.
+  match k with SDiff => Nat.eqb n 3 | _ => false end.
 
 Lemma rejects_arity tag ty text tail otag oty otext otail och args k :
   role tag = Some RApply -> role otag = Some (ROp k) ->
-  args <> [] -> arity_ok k (length args) = false -> arity_hole k (length args) = false ->
+  arity_ok k (length args) = false -> arity_hole k (length args) = false ->
   exists e, tr (MElem tag ty text tail (MElem otag oty otext otail och :: args)) = TErr e.
 Proof.
-  intros Hr Ho Hne Ha Hh.
+  intros Hr Ho Ha Hh.
   rewrite (tr_container _ _ _ _ _ _ HApply Hr eq_refl eq_refl).
-  change (trs (MElem otag oty otext otail och :: args)) with
-    (match tr (MElem otag oty otext otail och) with
-     | TOk v => match trs args with TOk vs => TOk (v :: vs) | TErr e => TErr e end
-     | TErr e => TErr e end).
-  change (tr (MElem otag oty otext otail och)) with
-    (match tag_kind otag with None => TErr EValue | Some h => handle h oty otext och (trs och) end).
-  rewrite (role_kind _ _ Ho). cbn [expected handle].
+  rewrite trs_unfold, tr_unfold, (role_kind _ _ Ho). cbn [expected].
+  destruct (leaf_violation otag och); [eauto|]. cbn [handle].
   destruct (trs args) as [vargs|] eqn:Ea; [|eauto]. apply trs_length in Ea.
-  cbn [container apply_handler]. destruct vargs as [|v1 vargs']; [destruct args; [congruence|discriminate]|].
-  rewrite <- Ea in Ha, Hh. clear Ea Hne.
+  cbn [container apply_handler]. rewrite <- Ea in Ha, Hh. clear Ea.
+  destruct vargs as [|v1 vargs']; [cbn; eauto|].
   destruct k; cbn [arity_ok arity_hole] in Ha, Hh; try (cbn in Ha; discriminate);
     remember (v1 :: vargs') as vs eqn:Evs; clear Evs; unfold call_kind; cbn [kind_of];
     try (destruct vs as [|? [|? [|? [|? ?]]]]; try discriminate; cbn; eauto; fail).
@@ -745,12 +805,9 @@ Proof.
     destruct es as [|? [|? [|? ?]]]; try discriminate; cbn; eauto.
   - destruct (exprs vs) as [es|] eqn:Ee; [|eauto]. apply exprs_length in Ee. rewrite <- Ee in Ha.
     destruct es as [|? [|? [|? ?]]]; try discriminate; cbn; eauto.
-  - (* unary *)
-    destruct (f =? fn_log) eqn:Ef; cbn [andb] in Hh; cbv beta iota.
-    + destruct (exprs vs) as [es|] eqn:Ee; [|eauto]. apply exprs_length in Ee. rewrite <- Ee in Ha, Hh.
-      destruct es as [|? [|? [|? ?]]]; try discriminate; cbn; eauto.
-    + destruct (exprs vs) as [es|] eqn:Ee; [|eauto]. apply exprs_length in Ee. rewrite <- Ee in Ha.
-      destruct es as [|? [|? ?]]; try discriminate; cbn; eauto.
+  - (* unary, ln included *)
+    destruct (exprs vs) as [es|] eqn:Ee; [|eauto]. apply exprs_length in Ee. rewrite <- Ee in Ha.
+    destruct es as [|? [|? ?]]; try discriminate; cbn; eauto.
   - (* n-ary relations *)
     destruct (exprs vs) as [es|] eqn:Ee.
     + apply exprs_length in Ee. rewrite <- Ee in Ha. destruct es as [|? [|? ?]]; try discriminate; cbn; eauto.
@@ -761,7 +818,133 @@ Proof.
     + destruct vs as [|? [|? [|? ?]]]; try discriminate; eauto.
 Qed.
 
-(* ---- what the code accepts although it has no MathML meaning (F13): witnesses ----------------- *)
+(* repaired: operator-only-apply.  An operator without operands is refused ... *)
+Lemma rejects_operator_only tag ty text tail otag oty otext otail och k :
+  role tag = Some RApply -> role otag = Some (ROp k) ->
+  exists e, tr (MElem tag ty text tail [MElem otag oty otext otail och]) = TErr e.
+Proof. intros Hr Ho. apply (rejects_arity _ _ _ _ _ _ _ _ _ [] k Hr Ho); destruct k; reflexivity. Qed.
+
+(* ... and parse_tree returns SymPy objects only: no class, closure, list or tuple *)
+Lemma parse_one_basic t v : parse_one t = TOk v -> is_basic v = true.
+Proof. unfold parse_one. destruct (tr t) as [w|]; [|discriminate]. destruct (is_basic w) eqn:E; congruence. Qed.
+
+Lemma rejects_toplevel_operator tag ty text tail ch k :
+  role tag = Some (ROp k) -> exists e, parse_one (MElem tag ty text tail ch) = TErr e.
+Proof.
+  intro Hr. unfold parse_one. rewrite tr_unfold, (role_kind _ _ Hr). cbn [expected].
+  destruct (leaf_violation tag ch); cbn; eauto.
+Qed.
+
+(* repaired: diff-degree-not-positive-integer *)
+Lemma rejects_diff_degree bv de y :
+  (forall n, int_of_expr de = Some n -> is_whole de n = false \/ n < 1) ->
+  exists e, diff_call (TList [TE bv; TE de]) y = TErr e.
+Proof.
+  intro H. unfold diff_call. destruct (tv_is_boollit _ || tv_is_boollit y); [eauto|].
+  destruct y; eauto. destruct (int_of_expr de) as [n|] eqn:E; [|eauto].
+  destruct (H n eq_refl) as [Hw|Hn].
+  - rewrite Hw. cbn. eauto.
+  - assert (n <? 1 = true) as -> by lia. rewrite orb_true_r. eauto.
+Qed.
+
+(* repaired: cn-python-only-spelling.  A number is accepted only if it is written in the alphabet [0-9.+-eE]:
+   no underscore, no letters (nan, inf), no other digits *)
+Open Scope list_scope.
+Lemma forallb_weaken {X} (p q : X -> bool) l : (forall x, p x = true -> q x = true) -> forallb p l = true -> forallb q l = true.
+Proof. intros H. induction l; simpl; [auto|]. rewrite !andb_true_iff. intros [H1 H2]. auto. Qed.
+
+Lemma digits_rest_prefix : forall s acc n a m rest,
+  digits_rest acc n s = (a, m, rest) -> exists pre, s = pre ++ rest /\ forallb is_digit pre = true.
+Proof.
+  induction s as [|c r IH]; intros acc n a m rest H; cbn [digits_rest] in H.
+  - injection H as _ _ <-. exists []. split; reflexivity.
+  - destruct (is_digit c) eqn:E.
+    + destruct (IH _ _ _ _ _ H) as [pre [-> Hp]]. exists (c :: pre). split; [reflexivity|]. simpl. rewrite E, Hp. reflexivity.
+    + injection H as _ _ <-. exists []. split; reflexivity.
+Qed.
+
+Lemma digitpart_prefix s acc a m rest :
+  digitpart acc s = Some (a, m, rest) -> exists pre, s = pre ++ rest /\ forallb is_digit pre = true.
+Proof.
+  unfold digitpart. destruct s as [|c r]; [discriminate|]. destruct (is_digit c) eqn:E; [|discriminate].
+  intro H. injection H as H. destruct (digits_rest_prefix _ _ _ _ _ _ H) as [pre [-> Hp]].
+  exists (c :: pre). split; [reflexivity|]. simpl. rewrite E, Hp. reflexivity.
+Qed.
+
+Definition dec_char (c : Z) : bool := is_digit c || (c =? 46).
+
+Lemma number_prefix s v k rest :
+  number s = Some (v, k, rest) -> exists pre, s = pre ++ rest /\ forallb dec_char pre = true.
+Proof.
+  assert (W : forall l, forallb is_digit l = true -> forallb dec_char l = true).
+  { intro l. apply forallb_weaken. intros x Hx. unfold dec_char. rewrite Hx. reflexivity. }
+  unfold number. destruct (digitpart 0 s) as [[[ip n0] r0]|] eqn:E.
+  - destruct (digitpart_prefix _ _ _ _ _ E) as [p1 [-> H1]].
+    destruct r0 as [|c r1].
+    + intro H. injection H as <- <- <-. exists p1. split; [reflexivity|auto].
+    + destruct (c =? 46) eqn:Ec.
+      * apply Z.eqb_eq in Ec. subst c.
+        destruct (digitpart ip r1) as [[[v2 k2] r2]|] eqn:E2.
+        -- intro H. injection H as <- <- <-. destruct (digitpart_prefix _ _ _ _ _ E2) as [p2 [-> H2]].
+           exists (p1 ++ 46 :: p2). split; [rewrite <- app_assoc; reflexivity|].
+           rewrite forallb_app. simpl. rewrite (W _ H1), (W _ H2). reflexivity.
+        -- intro H. injection H as <- <- <-. exists (p1 ++ [46]). split; [rewrite <- app_assoc; reflexivity|].
+           rewrite forallb_app. simpl. rewrite (W _ H1). reflexivity.
+      * intro H. injection H as <- <- <-. exists p1. split; [reflexivity|auto].
+  - destruct s as [|c r]; [discriminate|]. destruct (c =? 46) eqn:Ec; [|discriminate].
+    apply Z.eqb_eq in Ec. subst c. intro H. destruct (digitpart_prefix _ _ _ _ _ H) as [p2 [-> H2]].
+    exists (46 :: p2). split; [reflexivity|]. simpl. rewrite (W _ H2). reflexivity.
+Qed.
+
+Lemma split_sign_chars s : exists pre, s = pre ++ snd (split_sign s) /\ forallb real_char pre = true.
+Proof.
+  unfold split_sign. destruct s as [|c r]; [exists []; split; reflexivity|].
+  destruct (c =? 43) eqn:E1; [|destruct (c =? 45) eqn:E2].
+  - exists [c]. split; [reflexivity|]. simpl. unfold real_char. rewrite E1. rewrite !orb_true_r. reflexivity.
+  - exists [c]. split; [reflexivity|]. simpl. unfold real_char. rewrite E2. rewrite !orb_true_r. reflexivity.
+  - exists []. split; reflexivity.
+Qed.
+
+Lemma signed_number_prefix s v k rest :
+  signed_number s = Some (v, k, rest) -> exists pre, s = pre ++ rest /\ forallb real_char pre = true.
+Proof.
+  unfold signed_number. destruct (number (snd (split_sign s))) as [[[v0 k0] r0]|] eqn:E; [|discriminate].
+  intro H. injection H as _ <- <-.
+  destruct (number_prefix _ _ _ _ E) as [p2 [H2 Hd]]. destruct (split_sign_chars s) as [p1 [H1 Hs]].
+  exists (p1 ++ p2). split; [rewrite <- app_assoc, <- H2; exact H1|].
+  rewrite forallb_app, Hs. simpl. revert Hd. apply forallb_weaken. intros x Hx. unfold real_char.
+  unfold dec_char in Hx. apply orb_true_iff in Hx as [->| ->]; [reflexivity|rewrite !orb_true_r; reflexivity].
+Qed.
+
+Lemma py_real_alphabet s q : py_real s = Some q -> forallb number_char s = true.
+Proof.
+  assert (W : forall l, forallb real_char l = true -> forallb number_char l = true).
+  { intro l. apply forallb_weaken. intros x Hx. unfold number_char. rewrite Hx. reflexivity. }
+  unfold py_real. destruct (signed_number s) as [[[v k] rest]|] eqn:E; [|discriminate].
+  destruct (signed_number_prefix _ _ _ _ E) as [pre [-> Hp]].
+  destruct rest as [|c rest].
+  - intros _. rewrite app_nil_r. auto.
+  - destruct ((c =? 101) || (c =? 69)) eqn:Ec; [|discriminate].
+    destruct (digitpart 0 (snd (split_sign rest))) as [[[e n0] [|]]|] eqn:Ed; try discriminate. intros _.
+    destruct (digitpart_prefix _ _ _ _ _ Ed) as [p3 [H3 Hd3]]. rewrite app_nil_r in H3.
+    destruct (split_sign_chars rest) as [p2 [H2 Hs2]].
+    assert (Hc : number_char c = true).
+    { unfold number_char. apply orb_true_iff in Ec as [->| ->]; rewrite ?orb_true_r; reflexivity. }
+    rewrite forallb_app, (W _ Hp). simpl. rewrite Hc. simpl.
+    rewrite H2, forallb_app, (W _ Hs2), H3. simpl. apply W. revert Hd3. apply forallb_weaken.
+    intros x Hx. unfold real_char. rewrite Hx. reflexivity.
+Qed.
+
+Lemma rejects_malformed_number tag text tail :
+  role tag = Some RCn -> forallb number_char (strip text) = false -> tr (MElem tag 0 text tail []) = TErr EValue.
+Proof.
+  intros Hr Hf. rewrite tr_unfold, (role_kind _ _ Hr), (may_children_no_violation _ RCn) by (try exact Hr; reflexivity).
+  cbn [expected handle]. unfold cn_handler. cbn [Z.eqb].
+  destruct (py_real (strip text)) as [q|] eqn:E; [|reflexivity].
+  apply py_real_alphabet in E. congruence.
+Qed.
+
+(* ---- witnesses ---------------------------------------------------------------------------------- *)
 Open Scope string_scope.
 Definition el (tag : string) (ch : list mtree) : mtree := MElem (N tag) 0 [] [] ch.
 Definition ci_ (s : string) : mtree := MElem (N "ci") 0 (N s) [] [].
@@ -771,41 +954,16 @@ Ltac nv := intros fs cs vs ds; vm_compute;
   repeat (match goal with |- context [vs ?a] => destruct (vs a) end);
   reflexivity.
 
-(* <apply><plus/></apply> is the class sympy.Add *)
-Lemma refuted_operator_only :
-  exists t, t = el "apply" [el "plus" []] /\ tr t = TOk (TOp KAdd) /\ no_value t.
-Proof. eexists. split; [reflexivity|]. split; [vm_compute; reflexivity|nv]. Qed.
-
-(* <apply><ln/> x y </apply> is log(x)/log(y) *)
-Lemma refuted_ln_two_operands :
-  exists t, t = el "apply" [el "ln" []; ci_ "x"; ci_ "y"] /\
-            tr t = TOk (TE (b_log (EVar (encode (N "x"))) (EVar (encode (N "y"))))) /\ no_value t.
-Proof. eexists. split; [reflexivity|]. split; [vm_compute; reflexivity|nv]. Qed.
-
-(* root(x, <degree>3</degree>) with the qualifier after the operand is 3^(1/x) *)
+(* still accepted although it has no MathML meaning (known finding qualifier-misuse): the handlers of the
+   qualifiers return the bare content, so a misplaced qualifier is an ordinary operand *)
 Lemma refuted_misplaced_degree :
   exists t, t = el "apply" [el "root" []; ci_ "x"; el "degree" [cn_ "3"]] /\
             tr t = TOk (TE (b_root (ENum 2 (inject_Z 3)) (EVar (encode (N "x"))))) /\ no_value t.
 Proof. eexists. split; [reflexivity|]. split; [vm_compute; reflexivity|nv]. Qed.
 
-(* a qualifier on a foreign operator is an ordinary operand: plus(<degree>3</degree>, x) = 3 + x *)
 Lemma refuted_foreign_qualifier :
   exists t, t = el "apply" [el "plus" []; el "degree" [cn_ "3"]; ci_ "x"] /\
             tr t = TOk (TE (EAdd [ENum 2 (inject_Z 3); EVar (encode (N "x"))])) /\ no_value t.
-Proof. eexists. split; [reflexivity|]. split; [vm_compute; reflexivity|nv]. Qed.
-
-(* <cn>1_0</cn> is 10, <cn>nan</cn> is nan *)
-Lemma refuted_cn_underscore :
-  exists t, t = cn_ "1_0" /\ tr t = TOk (TE (ENum 2 (inject_Z 10))) /\ no_value t.
-Proof. eexists. split; [reflexivity|]. split; [vm_compute; reflexivity|nv]. Qed.
-
-Lemma refuted_cn_nan : exists t, t = cn_ "nan" /\ tr t = TOk (TE (EConst 4)) /\ no_value t.
-Proof. eexists. split; [reflexivity|]. split; [vm_compute; reflexivity|nv]. Qed.
-
-(* diff with <degree>2.7</degree> is the second derivative; without <bvar> the first operand is the variable *)
-Lemma refuted_diff_degree_truncated :
-  exists t, t = el "apply" [el "diff" []; el "bvar" [ci_ "t"; el "degree" [cn_ "2.7"]]; ci_ "y"] /\
-            tr t = TOk (TE (EDeriv (EVar (encode (N "y"))) (EVar (encode (N "t"))) 2)) /\ no_value t.
 Proof. eexists. split; [reflexivity|]. split; [vm_compute; reflexivity|nv]. Qed.
 
 Lemma refuted_diff_without_bvar :
@@ -813,17 +971,33 @@ Lemma refuted_diff_without_bvar :
             tr t = TOk (TE (EDeriv (EVar (encode (N "y"))) (EVar (encode (N "t"))) 1)) /\ no_value t.
 Proof. eexists. split; [reflexivity|]. split; [vm_compute; reflexivity|nv]. Qed.
 
-(* <logbase> with two children uses the first *)
 Lemma refuted_logbase_two_children :
   exists t, t = el "apply" [el "log" []; el "logbase" [ci_ "b"; ci_ "c"]; ci_ "x"] /\
             tr t = TOk (TE (b_log (EVar (encode (N "x"))) (EVar (encode (N "b"))))) /\ no_value t.
 Proof. eexists. split; [reflexivity|]. split; [vm_compute; reflexivity|nv]. Qed.
 
-(* the hypotheses of the soundness theorem are satisfiable: root(x - 2.5) with degree 3 *)
+(* the former witnesses of the repaired findings are refused now *)
+Lemma repaired_witnesses :
+  tr (el "apply" [el "plus" []]) = TErr EValue /\
+  parse_one (el "plus" []) = TErr EValue /\
+  tr (el "apply" [el "ln" []; ci_ "x"; ci_ "y"]) = TErr EType /\
+  tr (cn_ "1_0") = TErr EValue /\ tr (cn_ "nan") = TErr EValue /\ tr (cn_ "-Infinity") = TErr EValue /\
+  tr (el "apply" [el "diff" []; el "bvar" [ci_ "t"; el "degree" [cn_ "2.7"]]; ci_ "y"]) = TErr EValue /\
+  tr (el "apply" [el "diff" []; el "bvar" [ci_ "t"; el "degree" [cn_ "0"]]; ci_ "y"]) = TErr EValue /\
+  tr (MElem (N "ci") 0 (N "y") [] [ci_ "x"]) = TErr EValue /\
+  tr (el "apply" [el "plus" [el "foo" []]; ci_ "x"; ci_ "y"]) = TErr EValue.
+Proof. vm_compute. repeat split. Qed.
+
+(* the hypotheses of the soundness theorem are satisfiable: x - 2.5 at x = 8; a second derivative is still built *)
 Example sound_nonvacuous :
   exists t e v, tr t = TOk (TE e) /\
     msem (fun _ _ => None) (fun _ => None) (fun _ => Some 8%R) (fun _ _ => None) t = Some v.
 Proof.
-  exists (el "apply" [el "minus" []; ci_ "x"; cn_ "2.5"]). eexists. eexists.
+  exists (el "apply" [el "minus" []; ci_ "x"; cn_ "2.5e0"]). eexists. eexists.
   split; [vm_compute; reflexivity|]. vm_compute. reflexivity.
 Qed.
+
+Example second_derivative_accepted :
+  tr (el "apply" [el "diff" []; el "bvar" [ci_ "t"; el "degree" [cn_ "2"]]; ci_ "y"]) =
+  TOk (TE (EDeriv (EVar (encode (N "y"))) (EVar (encode (N "t"))) 2)).
+Proof. vm_compute. reflexivity. Qed.
